@@ -537,6 +537,10 @@ def c14_r2(ctx):
                 ctx.viol((p.id, "error-without-line", var), "the error's line is not the line counter", p.where(bb, idx))
                 continue
             v = next(iter(lo))[0][1]
+            if len(next(iter(lo))) > 1:
+                # `position.line_number` of a struct that travels with the file name: the stores
+                # into a field of a local struct are not followed by the counter reader
+                raise AnalysisError("idiom not recognised: the line counter of %s is kept in a field of a local struct (%s)" % (p.id, fmt_origin(next(iter(lo)))))
             if counter is None:
                 counter = v
             if v != counter:
